@@ -186,6 +186,8 @@ def check_bin(case):
     dis = []
 
     def operand_b():
+        if y[1] == "" and k % 3 == 2:
+            return float(rat(y[0]))               # a unitless length given as the bare number
         return [svg.Length(sb), sb][k % 2] if True else None
 
     def arith(name, fn, wa, wb):
